@@ -63,6 +63,7 @@ class Analysis:
         self.summ = {}
         self.attr_kinds = {}        # (class qualname, attr) -> (kinds, ekinds) from constructors
         self.events = {}            # qualname -> [(origin, line, text, via)]   all in-place changes incl. local containers
+        self.shared_inplace = {}    # qualname -> [(line, changed name, other name, text)]  a = b = <new array>; a -= ...; ... b ...
         self.clobbers = {}          # qualname -> [(line, text)]
         self.by_name = {}
         for f in proj.all_functions():
@@ -91,6 +92,7 @@ class Analysis:
         s.ret = Val({o for o in w.ret.objs if _persistent(o)}, {o for o in w.ret.elts if _persistent(o)}, w.ret.kinds, w.ret.ekinds)
         s.mut = {o: e for o, e in w.mut.items() if _persistent(o)}
         self.events[f.qualname] = list(w.mut_all)
+        self.shared_inplace[f.qualname] = list(dict.fromkeys(w.shared_inplace))
         self.clobbers[f.qualname] = list(w.clobbers)
         if f.name == "__init__" and f.cls is not None:
             for attr, v in w.self_env.items():
@@ -197,6 +199,8 @@ class _Walker:
         self.ret = EMPTY
         self.mut = {}
         self.mut_all = []
+        self.shared_inplace = []
+        self.same = {}              # local name -> the other local names bound to the very same object
         self.clobbers = []
         self.call_results = {}      # local name -> (line, callee text) for values obtained from a call
         self.alloc_count = {}       # allocation site -> number of times evaluated (a loop re-creates the object)
@@ -294,7 +298,9 @@ class _Walker:
         if isinstance(node, ast.BinOp):
             if isinstance(node.op, ast.Mult) and isinstance(node.left, ast.List):
                 return Val({self.new(node)})
-            return EMPTY
+            self.ev(node.left)
+            self.ev(node.right)
+            return Val({self.new(node)})        # the result of an arithmetic operation: a new value (a new array)
         if isinstance(node, ast.Call):
             return self.call(node)
         if isinstance(node, ast.Starred):
@@ -434,8 +440,24 @@ class _Walker:
                     else:
                         self.env[e.id] = elem if (is_enum or len(target.elts) == 1) else Val(elem.objs, elem.elts)
 
+    def _unbind(self, name):
+        g = self.same.pop(name, None)
+        if g:
+            for o in g:
+                if o in self.same:
+                    self.same[o].discard(name)
+
     def assign(self, t, v, st):
         if isinstance(t, ast.Name):
+            self._unbind(t.id)
+            if isinstance(st, ast.Assign):
+                # the very same object: the other targets of a chained assignment, and a plain name on the right-hand side
+                group = {x.id for x in st.targets if isinstance(x, ast.Name)} if len(st.targets) > 1 else {t.id}
+                if isinstance(st.value, ast.Name) and isinstance(t, ast.Name) and t in st.targets:
+                    group |= {st.value.id} | set(self.same.get(st.value.id, ()))
+                if len(group) > 1:
+                    for nm in group:
+                        self.same.setdefault(nm, set()).update(group - {nm})
             self.env[t.id] = v
             self.pending.pop(t.id, None)
             self.loopvars.discard(t.id)
@@ -481,6 +503,13 @@ class _Walker:
             if isinstance(t, ast.Name):
                 v = self.env.get(t.id, EMPTY)
                 self.mutate(v.objs, st, "in-place operator")
+                # two LOCAL names bound to ONE object (a = b = expr ; a = b): the in-place operator changes what BOTH denote
+                for nm in sorted(self.same.get(t.id, ())):
+                    if nm == t.id or nm == self.sn:
+                        continue
+                    later = any(isinstance(n, ast.Name) and n.id == nm and isinstance(n.ctx, ast.Load) and getattr(n, "lineno", 0) > st.lineno for n in ast.walk(self.f.node))
+                    if later:
+                        self.shared_inplace.append((st.lineno, t.id, nm, unparse(st)[:50]))
             elif isinstance(t, ast.Attribute) and isinstance(t.value, ast.Name) and t.value.id == self.sn:
                 if self.f.name != "__init__":
                     self.mutate({"S:" + t.attr}, st, "in-place operator", kind="rebind")   # counters: self.n += 1
